@@ -117,6 +117,36 @@ def obj1d(rng, kind):
     return e, {"kind": kind, "xstar": [c], "res": res, "scale": s, "c": c}
 
 
+def _overflow_case(rng, tols):
+    kind = rng.choice(["cosh", "cosh", "cosh", "morse", "lj", "quadratic", "quartic"])
+    for _try in range(50):
+        e, info = obj1d(rng, kind)
+        s = info["scale"]; c = info["c"]
+        f = parse(e.split())[0]
+        if kind == "cosh":
+            r = rng.random()
+            if r < 0.5:      # both starts far out (cosh overflows beyond 710 length scales)
+                xl = c + rng.choice([-1, 1]) * s * rng.uniform(30, 705); xr = c + rng.choice([-1, 1]) * s * rng.uniform(30, 705)
+            elif r < 0.8:    # near start, step of tens to hundreds of length scales
+                xl = c + s * rng.uniform(-8, 8); xr = xl + rng.choice([-1, 1]) * s * 10 ** rng.uniform(1, 3)
+            else:            # geometric ladder towards the overflow threshold
+                xl = c + rng.choice([-1, 1]) * s * 710.0 * (1 - 10 ** rng.uniform(-6, -0.3)); xr = xl + rng.choice([-1, 1]) * s * 10 ** rng.uniform(-3, 3)
+        elif kind == "morse":   # exp(-k u) overflows for u < -709 s (its square beyond -355 s)
+            xl = c - s * rng.choice([rng.uniform(10, 354), rng.uniform(354, 709), 10 ** rng.uniform(0, 2.85)]); xr = xl + rng.choice([-1, 1]) * s * 10 ** rng.uniform(-3, 2.5)
+        elif kind == "lj":      # (r0/x)^12 overflows for x < 2e-26 r0
+            xl = c * 10 ** rng.uniform(-27, -0.3); xr = xl * (1 + rng.choice([-1, 1]) * 10 ** rng.uniform(-3, -0.1)) if rng.random() < 0.5 else c * 10 ** rng.uniform(-27, 0.5)
+        else:                   # (x-c)^2, (x-c)^4 overflow beyond 1e154, 1e77 (times the scale)
+            p = 154.0 if kind == "quadratic" else 77.0
+            xl = c + rng.choice([-1, 1]) * s * 10 ** rng.uniform(p - 12, p + 1); xr = xl + rng.choice([-1, 1]) * abs(xl - c) * 10 ** rng.uniform(-3, 1)
+        if xl == xr or math.isinf(xl) or math.isinf(xr): continue
+        fl, fr = f([xl, 0.0, 0.0]), f([xr, 0.0, 0.0])
+        if math.isfinite(fl) and math.isfinite(fr): break
+    tol = rng.choice(tols)
+    if rng.random() < 0.25:
+        return Case(f"fpair {hx(xl)} {hx(xr)} {hx(tol)} * {C(-1.0)} {e}", ("fpair", kind, "overflow"), info=dict(info, tol=tol, neg=True, region="overflow"))
+    return Case(f"fmin {hx(xl)} {hx(xr)} {hx(tol)} {e}", ("fmin", kind, "overflow"), info=dict(info, tol=tol, region="overflow"))
+
+
 def multimodal1d(rng):
     s = 10 ** rng.uniform(-2, 2)
     ts = []
@@ -191,6 +221,11 @@ def generate(rng, tier):
             cs.append(Case(f"fpair {hx(xl)} {hx(xr)} {hx(tol)} * {C(-1.0)} {e}", ("fpair", kind), info=dict(info, tol=tol, neg=True)))
         else:
             cs.append(Case(f"fmin {hx(xl)} {hx(xr)} {hx(tol)} {e}", ("fmin", kind), info=dict(info, tol=tol)))
+    # ---- 1-D bowls whose values overflow to +inf (or to 1e300-sized numbers whose products overflow) at points the search visits:
+    #      starts hundreds of length scales from the minimiser (same side or opposite sides), steep bowls with steps of tens to
+    #      hundreds of length scales, the repulsive wall of the Morse / Lennard-Jones wells.  Both starting values are finite.
+    for _ in range(3000 if big else 260):
+        cs.append(_overflow_case(rng, tols))
     # ---- 1-D multimodal: descent and consistency only
     for _ in range(3000 if big else 400):
         e, s = multimodal1d(rng)
